@@ -748,6 +748,10 @@ fn eval_frame_a(f: &Frame, keywords: &BTreeSet<String>, st: &mut AStats, count: 
 
 const SCRIPT_CALL: &str = "return redis.call((unpack or table.unpack)(ARGV))";
 const SCRIPT_PCALL: &str = "return redis.pcall((unpack or table.unpack)(ARGV))";
+/// Tells a RAISED error (redis.call's contract: the script stops there) from a returned error table (redis.pcall's):
+/// a bare `return redis.call(..)` answers with an error reply in both cases.
+const SCRIPT_CALL_GUARDED: &str = "local ok, r = pcall(redis.call, (unpack or table.unpack)(ARGV)); if ok then return r end; return {err = 'RAISED ' .. ((type(r) == 'table' and r.err) or tostring(r))}";
+const SCRIPT_PCALL_GUARDED: &str = "local ok, r = pcall(redis.pcall, (unpack or table.unpack)(ARGV)); if ok then return r end; return {err = 'RAISED ' .. ((type(r) == 'table' and r.err) or tostring(r))}";
 
 /// Names that are not data commands (server / connection / scripting / transaction / stubs) or whose
 /// result is random by specification; they are outside part (b).
@@ -913,11 +917,11 @@ impl Twin {
     /// Returns None when the two parsers disagree about the frame (part (a) reports that).
     fn run(&mut self, inst: &Argv) -> Option<LuaCase> {
         let (c, p) = (eval_argv(SCRIPT_CALL, inst), eval_argv(SCRIPT_PCALL, inst));
-        self.run_with(inst, &c, &p)
+        self.run_with(inst, &c, &p, true)
     }
 
     /// `inst` sent directly vs the two given EVAL invocations.
-    fn run_with(&mut self, inst: &Argv, call_argv: &Argv, pcall_argv: &Argv) -> Option<LuaCase> {
+    fn run_with(&mut self, inst: &Argv, call_argv: &Argv, pcall_argv: &Argv, guarded: bool) -> Option<LuaCase> {
         let f = frame_of(inst);
         let (pa, pb) = (parse_a(&f), parse_b(&f));
         let accepted = match (&pa, &pb) {
@@ -939,8 +943,19 @@ impl Twin {
         let ks_direct = snapshot(&mut self.d);
         let ks_call = snapshot(&mut self.c);
         let ks_pcall = snapshot(&mut self.p);
-        let kind_call = judge_variant(&name, accepted, &direct, &call, &ks_direct, &ks_call, false);
-        let kind_pcall = judge_variant(&name, accepted, &direct, &pcall, &ks_direct, &ks_pcall, true);
+        let mut kind_call = judge_variant(&name, accepted, &direct, &call, &ks_direct, &ks_call, false);
+        let mut kind_pcall = judge_variant(&name, accepted, &direct, &pcall, &ks_direct, &ks_pcall, true);
+        // where all three paths answer with an error (and left the keyspace alone): redis.call must have RAISED it
+        // (a script does not run past a failing redis.call), redis.pcall must have RETURNED it
+        if guarded && kind_call.is_none() && kind_pcall.is_none() && resp::is_err(&direct) && resp::is_err(&call) && resp::is_err(&pcall) && ks_call == self.base && ks_pcall == self.base {
+            let raised = |v: &RespValue| err_text(v).map(|e| e.contains("RAISED")).unwrap_or(false);
+            if !raised(&exec_argv(&mut self.c, &eval_argv(SCRIPT_CALL_GUARDED, inst))) {
+                kind_call = Some("call-does-not-raise");
+            }
+            if raised(&exec_argv(&mut self.p, &eval_argv(SCRIPT_PCALL_GUARDED, inst))) {
+                kind_pcall = Some("pcall-raises");
+            }
+        }
         if ks_direct != self.base {
             self.d = build(&self.seed);
         }
@@ -1168,7 +1183,7 @@ fn replay(path: &std::path::Path, keywords: &BTreeSet<String>) -> ! {
             let seed: Vec<Argv> = r["seed_ops"].as_array().map(|a| a.iter().map(resp::argv_from_json).collect()).unwrap_or_default();
             let (direct, call, pcall) = numeric_case(r["template"].as_str().unwrap(), r["lua_expr"].as_str().unwrap(), r["numeral"].as_str().unwrap());
             let mut tw = Twin::new(&seed);
-            match tw.run_with(&direct, &call, &pcall) {
+            match tw.run_with(&direct, &call, &pcall, false) {
                 None => false,
                 Some(c) => {
                     println!("{}", lua_detail(r["state"].as_str().unwrap_or("?"), &seed, &direct, &direct, &c));
@@ -1617,7 +1632,7 @@ fn main() {
         let (expr, numeral) = LUA_NUMBERS[*ni];
         let (direct, call, pcall) = numeric_case(NUM_TEMPLATES[*ti], expr, numeral);
         let mut tw = Twin::new(seed);
-        let c = tw.run_with(&direct, &call, &pcall)?;
+        let c = tw.run_with(&direct, &call, &pcall, false)?;
         let kind = kind_string(&c)?;
         let name = NUM_TEMPLATES[*ti].split(' ').next().unwrap();
         let class = if numeral.contains('.') { "fraction" } else if numeral.trim_start_matches('-').len() >= 19 { "integer-near-or-beyond-i64" } else { "integer" };
